@@ -32,7 +32,7 @@ def triples(layout):
 
 def make_model(mid, M, eps, U, rot=(), bog=(), layout=None):
     return {"id": mid, "M": M, "eps": list(eps), "U": [list(u) for u in U], "rot": [list(p) for p in rot], "bog": [list(p) for p in bog],
-            "layout": layout or LAYOUTS[M][0], "gf": [], "avg": [], "sus": [], "docc": [], "chi": []}
+            "ph": [], "layout": layout or LAYOUTS[M][0], "gf": [], "avg": [], "sus": [], "docc": [], "chi": []}
 
 
 def catalogue(rng, Ms=(2, 3), per_M=8, transforms=True, prefix="E"):
@@ -89,7 +89,7 @@ def evaluate(models, tag, timeout=1800, workers=8):
     path = os.path.join(pv.OUT, tag + "-models.ndjson")
     with open(path, "w") as f:
         for m in models:
-            f.write(json.dumps({k: m[k] for k in ("id", "M", "eps", "U", "rot", "bog", "gf", "avg", "sus", "docc", "chi")}, separators=(",", ":")) + "\n")
+            f.write(json.dumps({k: m[k] for k in ("id", "M", "eps", "U", "rot", "bog", "ph", "gf", "avg", "sus", "docc", "chi")}, separators=(",", ":")) + "\n")
     r = pv.run_tlc("LehmannGen", "LehmannGen", workers=workers, env={"MODELS": path}, timeout=timeout, heap="8g")
     return r, {p["id"]: p for p in r.pv}
 
@@ -100,7 +100,10 @@ def scenario(m, pred, **kw):
     build = []
     for t in pred["hc"]:
         ops = [[k, tr[i][0], tr[i][1], tr[i][2]] for (k, i) in t["ops"]]
-        build.append(["AddTerm", 1, {"ops": ops, "v": t["num"]}])
+        term = {"ops": ops, "v": t["num"]}
+        if t.get("numi"):
+            term["vi"] = t["numi"]           # complex amplitude: complex matrix-element build only
+        build.append(["AddTerm", 1, term])
     sc = {"kind": "model", "id": m["id"], "sites": m["layout"], "den": pred["DE"], "build": build}
     sc.update(kw)
     return sc
@@ -261,3 +264,31 @@ def chi_value(pred, paths, beta, n1, n2, n3):
         val += PERMSIGN[pi - 1] * mp.mpc(re, im) / D4 * s_
         tot += mag / D4 * abs(s_)
     return val, tot
+
+
+def with_phases(rng, ms):
+    """copies of the models with gauge phases c'_p = i c_p on one or two modes that take part in a rotation / Bogoliubov pair
+    (only there does the phase make the Hamiltonian complex); for the complex matrix-element build"""
+    out = []
+    for m in ms:
+        cand = [p for pair in m["rot"] + m["bog"] for p in pair]
+        if not cand:
+            continue
+        mm = dict(m)
+        mm["id"] = m["id"] + "ph"
+        mm["ph"] = sorted(rng.choice(pair) for pair in m["rot"] + m["bog"])      # one mode of every pair: the pair's mixing terms become complex
+        out.append(mm)
+    return out
+
+
+def run_split(exe_real, scen, ms, timeout=3000):
+    """runs the scenarios of phased (complex) models in the complex matrix-element build and the others in the real build"""
+    phased = {m["id"] for m in ms if m.get("ph")}
+    real = [s for s in scen if s["id"] not in phased]
+    cpl = [s for s in scen if s["id"] in phased]
+    recs, crashed = pv.run_driver_resilient(exe_real, real, timeout=timeout)
+    if cpl:
+        r2, c2 = pv.run_driver_resilient(pv.harness("cplx", "pv_driver"), cpl, timeout=timeout)
+        recs += r2
+        crashed.update(c2)
+    return recs, crashed
